@@ -196,6 +196,12 @@ def default_account(chk, obs):
             lo, hi = _ext(row['x'])
             if cs and all(c in (lo, hi) for c in cs):
                 seen.add((k, row['fn'], row['route'], row['axis'], row['x']['s'], row['x']['w'], row['x']['f'], tuple(cs), str(row.get('yrows'))))
+        elif k == 'wf':
+            ev += len(row.get('objs', []))
+            for o_ in row.get('objs', []):
+                lo_, hi_ = _ext(o_['fmt']) if o_['fmt']['w'] >= 1 else (0, 0)
+                if any(unwint(c) in (lo_, hi_) for c in o_['codes']):
+                    seen.add((k, o_['how'], o_['fmt']['s'], o_['fmt']['w'], o_['fmt']['f'], str(o_['codes'][:4])))
         elif k == 'extflag':
             ev += len(row.get('obs', []))
             for o_ in row.get('obs', []):
